@@ -244,6 +244,48 @@ class Index:
             for c in m.classes.values():
                 c.bases = [self.resolve_class_expr(m, b) for b in c.node.bases]
         self._mro = {}
+        self._inline_delegating_methods()
+
+    def _inline_delegating_methods(self):
+        """A method whose whole body is `return _helper(self, a, b)` / `_helper(self, a, b)` -- a private module-level function of
+        the same module called with the receiver first and then parameters of the method by name -- IS that helper with its first
+        parameter called `self`: the helper's body (parameters renamed) becomes the method's body.  Beta-reduction of a call whose
+        arguments are plain names; shared bodies of sibling classes (request / response echo codecs) are then analysed per class."""
+        for m in self.mods.values():
+            for c in m.classes.values():
+                for fn in c.methods.values():
+                    body = [st for st in fn.node.body if not (isinstance(st, ast.Expr) and isinstance(st.value, ast.Constant))]
+                    if len(body) != 1 or not isinstance(body[0], (ast.Return, ast.Expr)) or not isinstance(body[0].value, ast.Call):
+                        continue
+                    call = body[0].value
+                    if not (isinstance(call.func, ast.Name) and call.func.id.startswith('_') and not call.func.id.startswith('__') and call.func.id in m.funcs):
+                        continue
+                    h = m.funcs[call.func.id]
+                    if h.is_async or h.node.decorator_list or call.keywords or h.node.args.vararg or h.node.args.kwarg or h.node.args.kwonlyargs:
+                        continue
+                    if not call.args or not (isinstance(call.args[0], ast.Name) and call.args[0].id == 'self') or len(call.args) != len(h.params):
+                        continue
+                    if not all(isinstance(a, ast.Name) and a.id in fn.params for a in call.args):
+                        continue
+                    ren = {hp: a.id for hp, a in zip(h.params, call.args)}
+                    # locals of the helper must not collide with parameter names of the method
+                    locals_ = {n.id for n in ast.walk(h.node) if isinstance(n, ast.Name) and isinstance(n.ctx, ast.Store)}
+                    if locals_ & (set(fn.params) - set(ren.values())) or any(isinstance(n, (ast.Yield, ast.YieldFrom, ast.Global, ast.Nonlocal)) for n in ast.walk(h.node)):
+                        continue
+                    new_body = clone([st for st in h.node.body if not (isinstance(st, ast.Expr) and isinstance(st.value, ast.Constant))])
+
+                    class R(ast.NodeTransformer):
+                        def visit_Name(self, n):
+                            if n.id in ren:
+                                return ast.copy_location(ast.Name(id=ren[n.id], ctx=n.ctx), n)
+                            return n
+                    new_body = [R().visit(st) for st in new_body]
+                    if isinstance(body[0], ast.Expr) and any(isinstance(n, ast.Return) and n.value is not None for st in new_body for n in ast.walk(st)):
+                        continue        # the method discards a value the helper returns: keep the call
+                    doc = [st for st in fn.node.body if isinstance(st, ast.Expr) and isinstance(st.value, ast.Constant)]
+                    fn.node.body = doc + new_body
+                    ast.fix_missing_locations(fn.node)
+                    set_parents(fn.node)
 
     # ------------------------------------------------------------------ scan
     def _scan(self, m):
